@@ -1,8 +1,8 @@
 (* Model of the TWKB codec, integer layer.  Carrier: Z = the already quantised ordinate
    int64(math.Round(f * 10^prec)); the float <-> integer step is Model/TWKBQuant.v.
    Anchors: geom/twkb.go, geom/twkb_write.go (twkbWriter), geom/twkb_parser.go (twkbParser).
-   The model follows the code WITH the repairs fixes/F5, F6, F7, F15, F16, F17, F18, F70 applied
-   (each place is marked "fix Fnn"); the unrepaired behaviours are re-found by the
+   The model follows the code WITH the repairs fixes/F5, F6, F7, F15, F16, F17, F18, F31, F70, F71 applied
+   (each place is marked "fix Fnn"; F7 and F31 are C08's patches); the unrepaired behaviours are re-found by the
    correspondence run on the unfixed tree.
    Representation choices (all behaviour-preserving):
    - a point of a point array is the list of its `dimensions` integers; the writer's and the
@@ -302,13 +302,14 @@ Definition h_ct (h : thdr) : ctype := mk_ct (h_hasz h) (h_hasm h).
 
 Definition bit (b : N) (k : N) : bool := ((b / k) mod 2 =? 1)%N.
 
-(* parseSize: p.size = p.pos + int(bytesRemaining); error if p.size > len(p.twkb) *)
+(* parseSize (with fix F31: the announced byte count is compared, unsigned, with the bytes
+   that are left before p.size = p.pos + int(bytesRemaining) is formed; before the repair a
+   count of 2^63 or more wrapped to a negative int and was accepted) *)
 Definition parse_size : TP Z :=
   doT rem <- rd_uv;
   fun s =>
-    let size := wrap64 (Z.of_N (s_pos s) + wrap64 (Z.of_N rem)) in
-    if (Z.of_N (s_pos s) + Z.of_nat (length (s_in s)) <? size)%Z then TErr EEOF (s_alloc s)
-    else TOk size s.
+    if (N.of_nat (length (s_in s)) <? rem)%N then TErr EEOF (s_alloc s)
+    else TOk (Z.of_N (s_pos s) + Z.of_N rem)%Z s.
 
 Fixpoint rd_svs (n : nat) : TP (list Z) :=
   match n with
@@ -672,13 +673,14 @@ Definition line_dom (l : lineT Z) : bool := cnt_ok (line_vs l) && forallb vtx_i6
 (* Ring hypothesis (finding F19, inherent to TWKB's implicit ring closure): without
    TWKBCloseRings the writer drops the final vertex and the reader appends the first vertex
    again only when the last transmitted vertex differs from it. A ring therefore survives iff
-   it has at most one vertex, or at least three with last = first and the vertex before the last
-   different from the first (after rounding!). With TWKBCloseRings: at most one vertex, or
+   it has exactly one vertex, or at least three with last = first and the vertex before the last
+   different from the first (after rounding!). With TWKBCloseRings: one vertex, or
    last = first. *)
 Definition ring_dom (close : bool) (l : lineT Z) : bool :=
   line_dom l &&
   match line_vs l with
-  | [] | [_] => true
+  | [] => false            (* a ring has at least one vertex (valid rings have four) *)
+  | [_] => true
   | v0 :: tl =>
       vtx_eqb v0 (last tl v0) &&
       (close || negb (vtx_eqb v0 (last (removelast tl) v0)) && (2 <=? length tl)%nat)
@@ -687,7 +689,8 @@ Definition ring_dom (close : bool) (l : lineT Z) : bool :=
 Definition ring_closed (l : lineT Z) : bool :=
   line_dom l &&
   match line_vs l with
-  | [] | [_] => true
+  | [] => false
+  | [_] => true
   | v0 :: tl => vtx_eqb v0 (last tl v0)
   end.
 Definition poly_dom (rp : lineT Z -> bool) (p : polyT Z) : bool :=
